@@ -453,7 +453,8 @@ impl VhostUserFrontend for Frontend {
         buf: &[u8],
     ) -> Result<(VhostUserConfig, VhostUserConfigPayload)> {
         let body = VhostUserConfig::new(offset, size, flags);
-        if !body.is_valid() {
+        // The payload sent along with the request must cover exactly the requested window.
+        if !body.is_valid() || buf.len() != size as usize {
             return error_code(VhostUserError::InvalidParam);
         }
 
